@@ -174,6 +174,17 @@ def gen_cases(rng, tier):
                 steps.append("%d:abortall" % (tl + 5))
             setup = (c[3] + ";" if c[3] and c[3] != "-" else "") + "quiesce"
             cases.append(["u-%s-%d" % (mod, j), "c16", "ua", c[2], setup, ",".join(steps), c[5] if len(c) > 5 and c[5].isdigit() else "1"])
+    # connection-oriented transports: whatever happened on the connection (frames, peer close or garbage while handles are
+    # alive, selections), once every handle is dropped and 70 s have passed no connection entry is left
+    P15 = importlib.import_module("props.c15")
+    r15 = rng.__class__(rng.randrange(1 << 30))
+    for j in range(40 if tier == "quick" else 600):
+        incoming = r15.random() < 0.3
+        g = P15.gen_history(r15, incoming)
+        tail = ["drop,drop,drop,drop,drop,drop,drop,drop,drop,drop", "adv:70000"]
+        cases.append(["conn%d" % j, "c16", "conn", "in" if incoming else "out", ";".join(g + tail)])
+    for j, g in enumerate(("frame,close", "close", "clone,frame,close;adv:100", "garbage", "frame,garbage;adv:5", "frame;adv:31000;close", "select,close", "frame,frame,close;select")):
+        cases.append(["connx%d" % j, "c16", "conn", "out", g + ";drop,drop,drop,drop;adv:70000"])
     # dialog-creating responses the UAC cannot use (no Contact): whatever was registered on the way must be gone again
     P13 = importlib.import_module("props.c13")
     for j, hist in enumerate((["180:a", "486:a"], ["183:a", "180:b", "404:-"], ["200:a"], ["180:a", "200:a"], ["180:a"], ["199:c", "603:c"])):
@@ -198,6 +209,8 @@ def _gap_flood(n):
 
 
 def model_case(case, impl):
+    if case[2] == "conn":
+        return [case[0], "c16", "quiesce"]
     if case[2] == "stun":
         return [case[0], "c16", "stun"]
     if case[2] == "tsx":
@@ -216,6 +229,11 @@ def normalize_impl(case, s):
         return "pending=%s/%s" % m.groups() if m else "pending=?"
     if case[2] == "tsx":
         return " ".join("P@%s:tsx%s" % p for p in _probes(s))
+    if case[2] == "conn":
+        # the model's quiescent state: every table empty; the connection table is the one observed here
+        last = [o for o in s.split(";") if o][-1:] or [""]
+        f = dict(x.split("=", 1) for x in last[0].split() if "=" in x)
+        return "quiesced=tsx0/tp%s/dlg0/backlog0/cancel0" % f.get("m", "?")
     m = re.search(r"quiesced=\S+", s)
     return m.group(0) if m else "quiesced=?"
 
@@ -230,6 +248,14 @@ def oracle(case, impl):
             return ["no observation: " + impl[:200]]
         if m.group(1) != "0" or m.group(2) != "0":
             out.append("STUN transaction entry outlives the call (%s): pending=%s after the call returned, %s later" % (case[6], m.group(1), m.group(2)))
+        return out
+    if case[2] == "conn":
+        obs = [o for o in impl.split(";") if o]
+        if not obs:
+            return ["no observation"]
+        f = dict(x.split("=", 1) for x in obs[-1].split() if "=" in x)
+        if f.get("m") != "0":
+            out.append("connection entry left behind after every handle was dropped and 70 s passed: %s registered connection(s) (history %s)" % (f.get("m"), case[4]))
         return out
     if case[2] == "tsx":
         full = re.findall(r"P@(\d+):tsx(\d+)/tp(\d+)/dlg(\d+)/backlog(\d+)/cancel(\d+)", impl)
@@ -270,6 +296,8 @@ def nontrivial(case, impl):
         return "|".join(case[3:])
     if case[2] == "tsx":
         return case[3]
+    if case[2] == "conn":
+        return case[3] + case[4]
     return case[5]
 
 
@@ -280,6 +308,8 @@ def distribution(cases, impl):
         if x[2] == "tsx":
             for it in x[3].split(","):
                 c["tsx:" + it.split(":")[1]] += 1
+        elif x[2] == "conn":
+            pass
         elif x[2] == "ua":
             c["ua:" + x[0].split("-")[1]] += 1
             if "abortall" in x[5]:
